@@ -2,7 +2,7 @@
    and the in-Coq cross-check (cases.v, vm_compute) both call. *)
 From Coq Require Import List NArith ZArith Bool.
 Import ListNotations.
-From RV Require Import Base.Str Base.PathLex Path.Clean Path.CleanSpec Path.Relative Path.Helpers Path.HelpersFacts Core.Iter File.MemFile.
+From RV Require Import Base.Str Base.PathLex Path.Clean Path.CleanSpec Path.Relative Path.Helpers Path.HelpersFacts Core.Iter File.MemFile Path.Expand Path.Abs.
 
 Definition api_components := components.
 Definition api_push := push.
@@ -87,3 +87,12 @@ Fixpoint wh_trace (h : whandle) (store : option (list N)) (ops : list wop) : lis
   end.
 Definition api_wh_trace (append : bool) (old : list N) (removed : bool) (ops : list wop) :=
   wh_trace (if append then open_append old else open_write) (if removed then None else Some old) ops.
+
+(* ---- C17 / C05 ---- *)
+Fixpoint env_lookup (e : list (list N * list N)) (k : list N) : option (list N) :=
+  match e with
+  | [] => None
+  | (k', v) :: e' => if str_eqb k k' then Some v else env_lookup e' k
+  end.
+Definition api_expand (e : list (list N * list N)) (p : list N) := expand (env_lookup e) p.
+Definition api_abs (e : list (list N * list N)) (cwd p : list N) := Abs.abs cwd (env_lookup e) p.
